@@ -308,7 +308,11 @@ func recordFirst(l net.Listener) chan []byte {
 		buf := make([]byte, 64)
 		n, _ := conn.Read(buf)
 		_ = conn.Close()
-		ch <- buf[:n]
+		if n == 0 {
+			ch <- []byte{} // accepted, but the peer sent nothing
+		} else {
+			ch <- buf[:n]
+		}
 	}()
 	return ch
 }
@@ -347,14 +351,12 @@ func (c *schemeComp) runServer(obj interface{}) string {
 		if err := s.Startup(server.Channels{}); err != nil {
 			return "error"
 		}
-		secure, tlsCfg, _ := server.VerifC18HttpState(s)
+		// ws.secure selects ServeTLS / Serve (shape extracted into Gen.httpStartupServe); the listener itself is a
+		// local variable of Startup, so the flag is what can be observed without a race
+		secure := server.VerifC18HttpState(s)
 		sch := s.Address.Scheme
 		_ = s.Shutdown()
-		wire := "plain"
-		if tlsCfg {
-			wire = "tls"
-		}
-		return fmt.Sprintf("http,%s,%s,%v", sch, wire, secure)
+		return fmt.Sprintf("http,%s,%v", sch, secure)
 	case *server.PacketServer:
 		if err := s.Startup(server.Channels{}); err != nil {
 			return "error"
@@ -395,13 +397,13 @@ func (c *schemeComp) runUpstream(obj interface{}) string {
 		u.Address.Host = l.Addr().String()
 		res := make(chan error, 1)
 		go func() { res <- u.Connect(mgr, false) }()
-		select {
-		case first := <-ch:
-			<-res
-			return "ws," + wireKind(first)
-		case <-res:
+		<-res         // Connect always returns: the recorder closes whatever it accepted
+		_ = l.Close() // nothing accepted so far => the recorder's Accept fails and it reports nil
+		first := <-ch
+		if first == nil {
 			return "error" // refused before anything was dialled
 		}
+		return "ws," + wireKind(first)
 	case *upstream.Socket:
 		network := "tcp"
 		at := "127.0.0.1:0"
@@ -422,14 +424,13 @@ func (c *schemeComp) runUpstream(obj interface{}) string {
 		}
 		res := make(chan error, 1)
 		go func() { res <- u.Connect(mgr, false) }()
-		select {
-		case first := <-ch:
-			<-res
-			return "sock," + network + "," + wireKind(first)
-		case err := <-res:
-			_ = err
+		<-res
+		_ = l.Close()
+		first := <-ch
+		if first == nil {
 			return "error"
 		}
+		return "sock," + network + "," + wireKind(first)
 	case *upstream.InputOutput:
 		inR, inW := io.Pipe()
 		outR, outW := io.Pipe()
